@@ -74,6 +74,7 @@ def gen_history(rng, fam):
                             'byte': rng.choice((0, 1, 20, 60, 10 ** 6))}]
         runs.append(run)
     return {'kind': 'history', 'tasks': tasks, 'runs': runs,
+            'salt': rng.randrange(1 << 30),
             'tick': rng.choice(sched.TICKS),
             'linemode': rng.random() < 0.15}
 
@@ -157,6 +158,10 @@ def make_tasks_factory(scn, r, root, mods, log, counter):
     specs = scn['tasks']
     run = scn['runs'][r]
     here = present(scn, r)
+    # hash (hence set order in close_dependency_graph / build_graphs) and
+    # node order of the graphs: a seeded permutation, not the topological
+    # numbering of the generator
+    rank = sched.node_order(scn)
 
     def body(i, env):
         sim = core.cur_sim()
@@ -195,7 +200,7 @@ def make_tasks_factory(scn, r, root, mods, log, counter):
             self.idx = idx
 
         def __hash__(self):
-            return self.idx
+            return rank[self.idx]
 
         def __eq__(self, other):
             return self is other
@@ -209,7 +214,7 @@ def make_tasks_factory(scn, r, root, mods, log, counter):
             self.idx = idx
 
         def __hash__(self):
-            return self.idx
+            return rank[self.idx]
 
         def __eq__(self, other):
             return self is other
@@ -306,7 +311,8 @@ def run_history(scn, chooser):
                 else:
                     tasks = mods['task'].close_dependency_graph(
                         CURRENT['make']())
-                    tasks.sort(key=lambda t: t.idx)
+                    rank = sched.node_order(scn)
+                    tasks.sort(key=lambda t: rank[t.idx])
                     dgr = mods['depgraph'].DepGraph
                     hard, soft = dgr(), dgr()
                     for tsk in tasks:
@@ -314,10 +320,10 @@ def run_history(scn, chooser):
                         soft.add_node(tsk)
                     for tsk in tasks:
                         for dep in sorted(tsk.depends_on,
-                                          key=lambda t: t.idx):
+                                          key=lambda t: rank[t.idx]):
                             hard.add_dependency(tsk, on=dep)
                         for dep in sorted(tsk.soft_depends_on,
-                                          key=lambda t: t.idx):
+                                          key=lambda t: rank[t.idx]):
                             soft.add_dependency(tsk, on=dep)
                     env0 = mods['common'].read_env(
                         root=root, names=[t.name for t in tasks],
